@@ -14,6 +14,10 @@ Definition ev_eqb (x y : ev) : bool :=
       (c =? c') && (n =? n') && (l =? l')
   | VClear c, VClear c' | VStart c, VStart c' | VStop c, VStop c' | VLoopEnd c, VLoopEnd c' => c =? c'
   | VSkip c k, VSkip c' k' => (c =? c') && (k =? k')
+  | VReg c n, VReg c' n' | VUnreg c n, VUnreg c' n' => (c =? c') && (n =? n')
+  | VPark c n b, VPark c' n' b' => (c =? c') && (n =? n') && Bool.eqb b b'
+  | VDone c, VDone c' => c =? c'
+  | VProbe n a k q, VProbe n' a' k' q' => (n =? n') && zlist_eqb a a' && (k =? k') && zlist_eqb q q'
   | VBegin p c n a, VBegin p' c' n' a' => (p =? p') && (c =? c') && (n =? n') && zlist_eqb a a'
   | VInv p l a g, VInv p' l' a' g' => (p =? p') && (l =? l') && zlist_eqb a a' && (g =? g')
   | VRet l k, VRet l' k' => (l =? l') && Bool.eqb k k'
